@@ -87,5 +87,22 @@ def check_na(prog, ctx):
     return viol
 
 
+def sizes(tier):
+    from ..e1 import wide
+    return [dict(sp, ctx="rec") for sp in wide.specs(["many-contexts"], tier == "quick")]
+
+
+def check_sizes(spec, ctx):
+    from ..e1 import wide
+    prog = wide.expand(spec)
+    env = engine.run_program(prog, check_c06=True)
+    viol = oracles.clauses(env, "C06.")
+    viol += oracles.alternation(env)
+    ctx.label("wide:many-contexts")
+    ctx.nontrivial(spec)
+    return [(s, "%r: %s" % (spec, m[:500])) for s, m in viol]
+
+
 SUBS = [Sub("async-contexts", check_async, strategy=strat_async, reduce=reduce.candidates, examples={"quick": 6000, "thorough": 300000}),
-        Sub("nonasync", check_na, strategy=strat_na, reduce=reduce.candidates, examples={"quick": 4000, "thorough": 150000})]
+        Sub("nonasync", check_na, strategy=strat_na, reduce=reduce.candidates, examples={"quick": 4000, "thorough": 150000}),
+        Sub("sizes", check_sizes, enumerate=sizes)]
